@@ -822,6 +822,9 @@ func laws14doc(s sink, c case14, d *docCtx14, probes []probe14) (cls string, got
 				report("absent_clear_noop", fmt.Sprintf("Clear of an absent path (class %s) changed the document: %s -> %s", cls2, docString(d.ref), docString(doc2)))
 			}
 		}
+		if cls2 == ClsOk && found2 != nil { // something was removed: the Content slice was truncated in place
+			lawCopyIndependent14(s, c, doc2, c.Path)
+		}
 		return cls2, found2 != nil
 	case "lookupcreate", "putnc", "putscalar":
 		doc := d.ref.Copy()
@@ -845,6 +848,31 @@ func laws14doc(s sink, c case14, d *docCtx14, probes []probe14) (cls string, got
 		return lawsAPI14(s, c, d)
 	}
 	return "", false
+}
+
+// lawCopyIndependent14: RNode.Copy() yields an independent document: writing to the copy leaves the original
+// untouched and writing to the original leaves the copy untouched. Checked on the document [doc] as an operation left
+// it, with two puts at [path] (the node the operation worked on). The model is value based (a copy is the same value),
+// so this is an implementation-only law.
+func lawCopyIndependent14(s sink, c case14, doc *kyaml.RNode, path []string) {
+	if doc == nil || !wellFormed14(doc.YNode()) {
+		return
+	}
+	s.Count("law_domain", "copy-independent")
+	before := docString(doc)
+	cp := doc.Copy()
+	clsC, _, _ := putOn(cp, path, "zz1", kyaml.NewScalarRNode("1"))
+	if docString(doc) != before {
+		s.Violation(OracleViolation{Law: "copy_independent", Class: "C14/copy-shares-content",
+			Detail: fmt.Sprintf("a put on the Copy() (class %s) changed the original: %s -> %s", clsC, before, docString(doc)), Replay: c})
+		return
+	}
+	cpAfter := docString(cp)
+	clsO, _, _ := putOn(doc, path, "zz2", kyaml.NewScalarRNode("2"))
+	if docString(cp) != cpAfter {
+		s.Violation(OracleViolation{Law: "copy_independent", Class: "C14/copy-shares-content",
+			Detail: fmt.Sprintf("a put on the original (class %s) changed its earlier Copy(): %s -> %s", clsO, cpAfter, docString(cp)), Replay: c})
+	}
 }
 
 func lawsPutScalar14(s sink, c case14, d *docCtx14, doc1 *kyaml.RNode) {
